@@ -16,7 +16,8 @@ RULE = (
     "delimited or single frame), over all physical types, name tables 8..4096, prefix/datatype tables 0..4096, "
     "versions 1-2. E's output is first validated by the reference decoder R (R(E(x)) == x, else harness error). "
     "Oracle: parse_jelly_flat, parse_jelly_grouped (concatenated) and parse_jelly_to_graph of the generic integration "
-    "(and of rdflib for RDF 1.1-only cases) return exactly the ground truth, in order (sets for rdflib containers). "
+    "(and of rdflib for RDF 1.1-only cases) return exactly the ground truth, in order (sets for rdflib containers), also "
+    "when two flat parsers (this stream and the previous case's) are consumed in lock-step. "
     "Plus an atheris coverage-guided differential campaign (structure-aware mutator, corpus seeded from E and pyjelly): any "
     "bytes R classifies as a valid stream must be parsed to exactly R's events. "
     "non-trivial = the stream shows >=2 producer behaviours pyjelly's own writer never shows (counted from E's "
@@ -59,6 +60,43 @@ def first_diff(got, want):
     return "?"
 
 
+_PREVIOUS = {}
+
+
+def lockstep(data, truth, case):
+    """Two parsers alive at once: this stream and the previous case's stream are consumed in lock-step (zip); each must
+    still return what its own stream denotes."""
+    import io as _io
+
+    from pyjelly.integrations.generic.parse import parse_jelly_flat
+
+    prev = _PREVIOUS.get("data")
+    _PREVIOUS["data"], _PREVIOUS["truth"] = data, truth
+    if prev is None:
+        return None
+    a, b = parse_jelly_flat(_io.BytesIO(data)), parse_jelly_flat(_io.BytesIO(prev))
+    got_a, got_b = [], []
+    done_a = done_b = False
+    try:
+        while not (done_a and done_b):
+            if not done_a:
+                try:
+                    got_a.append(T.from_generic_stmt(next(a)))
+                except StopIteration:
+                    done_a = True
+            if not done_b:
+                try:
+                    got_b.append(T.from_generic_stmt(next(b)))
+                except StopIteration:
+                    done_b = True
+    except Exception as exc:  # noqa: BLE001
+        return Violation(f"C04:lockstep-raises:{type(exc).__name__}", f"two parsers consumed in lock-step: {exc!r}", {**case, "previous_hex": prev.hex()})
+    if norm_events(got_a) != truth:
+        return Violation("C04:lockstep-differs", f"parsed side by side with another stream: {first_diff(norm_events(got_a), truth)}",
+                         {**case, "previous_hex": prev.hex()})
+    return None
+
+
 def body(case, acc):
     try:
         out = jellyenc.encode_case(case)
@@ -76,6 +114,11 @@ def body(case, acc):
             labels.append("namespaces")
         acc.case(case, len(exotic) >= 2 and len(case["statements"]) >= 1, labels)
 
+    if case.get("previous_hex"):
+        _PREVIOUS["data"] = bytes.fromhex(case["previous_hex"])
+    v = lockstep(data, truth, {k: v_ for k, v_ in case.items() if k != "previous_hex"})
+    if v is not None:
+        return v
     integrations = ["generic"] + (["rdflib"] if case["mode"] == "rdflib" else [])
     for integ in integrations:
         want = truth if integ == "generic" else rdflib_truth(out["truth"])
